@@ -714,3 +714,79 @@ def enumerate_schedules(kind, progs, limit=None, monitor=True):
 
 def random_schedule(kind, progs, rng, monitor=True):
     return run_schedule(kind, progs, [], monitor=monitor, extend=True, choose=lambda en: rng.choice(en))
+
+
+class CompSystem:
+    """Composition used by the server: the real multifilesystem_nolock.Storage (acquire_lock) and
+    Collection._acquire_cache_lock.  progs: per thread a list of (mode, collection path, ns).
+    Monitor only (no Coq model of the composition; theorem C11_locked_in_cs justifies the `locked == "w"` shortcut):
+    two threads are never inside the cache section of the same (path, ns) at the same time."""
+    kind = "comp"
+
+    def __init__(self, progs):
+        import logging
+        import tempfile
+        from radicale import config
+        logging.getLogger("radicale").setLevel(logging.CRITICAL)
+        self.progs = progs
+        self.tmp = tempfile.mkdtemp(prefix="rv-c11comp-")
+        self.patch = Patched()
+        self.patch.__enter__()
+        self.sched = Scheduler()
+        CoopLock.sched = self.sched
+        conf = config.load()
+        conf.update({"storage": {"type": "multifilesystem_nolock", "filesystem_folder": self.tmp}}, "c11", privileged=True)
+        self.storage = self.patch.nolock.Storage(conf)
+        self.sched.start([self._body(p) for p in progs])
+
+    def close(self):
+        import shutil
+        self.sched.abort()
+        self.patch.__exit__()
+        shutil.rmtree(self.tmp, ignore_errors=True)
+
+    def _body(self, prog):
+        storage, sched = self.storage, self.sched
+        Coll = self.patch.nolock.Collection
+
+        def body(w):
+            for mode, path, ns in prog:
+                w.mode = mode
+                w.key = (path, ns)
+                w.phase = "acquire"
+                coll = Coll(storage, path)
+                with storage.acquire_lock(mode, "user"):
+                    w.phase = "storage"
+                    with coll._acquire_cache_lock(ns):
+                        w.phase = "cache"
+                        sched.yield_point(("nop",))
+                        w.phase = "storage"
+                    w.phase = "release"
+                w.phase = "idle"
+        return body
+
+    def observe(self):
+        s = self.sched
+        return [(w.phase, 1 if s.enabled(w.idx) else 0) for w in s.workers]
+
+    def monitor(self):
+        s = self.sched
+        for w in s.workers:
+            if w.error is not None:
+                raise Violation("thread %d raised %r" % (w.idx, w.error))
+        inside = collections.defaultdict(list)
+        for w in s.workers:
+            if w.phase == "cache":
+                inside[w.key].append(w.idx)
+        for key, ts in inside.items():
+            if len(ts) > 1:
+                raise Violation("threads %r are inside the cache section of %r at the same time" % (ts, key))
+        st = [w for w in s.workers if w.phase in ("storage", "cache")]
+        nw = sum(1 for w in st if w.mode == "w")
+        if nw > 1 or (nw == 1 and len(st) > 1):
+            raise Violation("storage lock: %d writers among %d holders" % (nw, len(st)))
+        if not s.all_done() and not any(s.enabled(i) for i in range(len(s.workers))):
+            raise Violation("deadlock: no thread can take a step, unfinished: %r" % [w.idx for w in s.workers if not w.done])
+
+
+SYSTEMS["comp"] = CompSystem
